@@ -149,6 +149,14 @@ Theorem C20_value_preserved_schema : forall nonstr srt kind api, S1 srt -> foral
 Proof. exact fmt_value_preserved. Qed.
 Print Assumptions C20_value_preserved_schema.
 
+(* full statement "a document a YAML parser accepts is formatted into one it accepts" is FALSE:
+   fmtNode moves nodes without regard to anchors (finding reparse/alias-before-anchor) *)
+Theorem C20_anchor_order_refuted : forall nonstr, exists n n',
+  wf_keys n = true /\ anchors_ok n = true /\
+  filter_doc nonstr isort SNil n = Ok n' /\ anchors_ok n' = false.
+Proof. exact fmt_anchor_order_refuted. Qed.
+Print Assumptions C20_anchor_order_refuted.
+
 (* the head / line / foot comments of all nodes: same multiset before and after *)
 Theorem C20_comments_preserved : forall nonstr srt kind api, S1 srt -> forall n s p n',
   fmt_node nonstr srt kind api s p n = Ok n' -> Permutation (comments n') (comments n).
